@@ -3,10 +3,10 @@
    Every theorem holds for EVERY per-element step function [exec] (any state, element and result types) and every
    element list; the last part instantiates [exec] with the ledger model Core.step.
 
-   FULL STATEMENT of "exactly one result per element, result i describes element i" for parallel = true is false
-   of the unchanged code (C32_attribution_refuted_parallel): BulkElementResult.ElementID is never assigned, results
-   are collected in completion order and paired with the actions by position. *)
-From Coq Require Import List Bool Arith ZArith String.
+   The model follows the code AFTER the repair of KF-C32-parallel-attribution: Bulker.run tags every result with the index
+   of its element (ElementID), writeJSONResponse sorts by it, so "result i describes element i" holds for parallel bulks
+   too (C32_response_attribution_parallel), whatever the completion order. *)
+From Coq Require Import List Bool Arith ZArith String Permutation.
 From LV Require Import Base.Util Ledger.Types Ledger.Core Ledger.Invariants Ledger.Bulk Ledger.BulkProofs.
 Import ListNotations.
 
@@ -77,12 +77,44 @@ Section C32.
   Proof. exact (run_bulk_standalone exec is_ok cancelled rollback cancelled_not_ok). Qed.
 
   (* JSON response of a sequential bulk: entry i carries result i under the action of element i ("ERROR" for a failure) *)
-  Theorem C32_response_attribution_sequential : forall (A : Type) (action : elem -> A) atomic cont s es s' rs i e r,
-    run_bulk atomic cont s es = (s', rs) -> nth_error es i = Some e -> nth_error rs i = Some r ->
-    nth_error (respond is_ok (map action es) rs) i = Some (if is_ok r then Some (action e) else None, r).
+  Theorem C32_response_attribution_sequential : forall (A : Type) (action : elem -> A) atomic cont s es s' rs i e,
+    run_bulk atomic cont s es = (s', rs) -> nth_error es i = Some e ->
+    exists r, nth_error rs i = Some r /\
+      nth_error (respond is_ok (map action es) (tag_seq rs)) i = Some (if is_ok r then Some (action e) else None, r).
   Proof.
-    intros A action atomic cont s es s' rs i e r _ He Hr.
-    apply respond_nth; [rewrite nth_error_map, He; reflexivity | exact Hr].
+    intros A action atomic cont s es s' rs i e H He.
+    pose proof (run_bulk_length exec is_ok cancelled rollback _ _ _ _ _ _ H) as Hlen.
+    assert (Hp : Permutation (map fst (tag_seq rs)) (seq 0 (List.length (map action es)))).
+    { rewrite tag_seq_keys, map_length, Hlen. apply Permutation_refl. }
+    assert (Ha : nth_error (map action es) i = Some (action e)) by (rewrite nth_error_map, He; reflexivity).
+    destruct (respond_nth is_ok (map action es) (tag_seq rs) i (action e) Hp Ha) as [r [Hin Hn]].
+    exists r. split; [apply tag_seq_in; exact Hin | exact Hn].
+  Qed.
+
+  (* JSON response of a parallel bulk, for EVERY schedule (completion order + which tasks saw the hasError flag) that
+     completes each element once: entry i carries the result computed for element i (the one tagged i by the run),
+     under the action of element i *)
+  Theorem C32_response_attribution_parallel : forall (A : Type) (action : elem -> A) cont s es sched s' tagged err' i e,
+    run_sched exec is_ok cancelled cont es s false sched = (s', tagged, err') ->
+    Permutation (map fst sched) (seq 0 (List.length es)) ->
+    nth_error es i = Some e ->
+    exists r, In (i, r) tagged /\
+      nth_error (respond is_ok (map action es) tagged) i = Some (if is_ok r then Some (action e) else None, r).
+  Proof.
+    intros A action cont s es sched s' tagged err' i e H Hp He.
+    pose proof (run_sched_tags_perm exec is_ok cancelled cont es sched s false s' tagged err' H Hp) as Hk.
+    assert (Ha : nth_error (map action es) i = Some (action e)) by (rewrite nth_error_map, He; reflexivity).
+    apply respond_nth; [rewrite map_length; exact Hk | exact Ha].
+  Qed.
+
+  (* exactly one result per element for such a schedule *)
+  Theorem C32_parallel_one_result_per_element : forall cont s es sched s' tagged err',
+    run_sched exec is_ok cancelled cont es s false sched = (s', tagged, err') ->
+    Permutation (map fst sched) (seq 0 (List.length es)) -> List.length tagged = List.length es.
+  Proof.
+    intros cont s es sched s' tagged err' H Hp.
+    pose proof (run_sched_tags_perm exec is_ok cancelled cont es sched s false s' tagged err' H Hp) as Hk.
+    apply Permutation_length in Hk. rewrite map_length, seq_length in Hk. exact Hk.
   Qed.
 
   (* parallel = true with every task started before the first completion: the elements are executed serially in
@@ -102,19 +134,19 @@ Print Assumptions C32_sequential_stops_at_first_failure.
 Print Assumptions C32_all_succeed.
 Print Assumptions C32_success_is_standalone.
 Print Assumptions C32_response_attribution_sequential.
+Print Assumptions C32_response_attribution_parallel.
+Print Assumptions C32_parallel_one_result_per_element.
 Print Assumptions C32_parallel_is_a_permutation.
 
-(* S-32: two elements completing in the order [1; 0]: the first entry of the response carries the result of element 1
-   under the action of element 0 (step function: a counter; the result is the value reached) *)
-Theorem C32_attribution_refuted_parallel :
+(* non-vacuity of the parallel attribution (the shape of the former S-32 witness): two elements completing in the order
+   [1; 0] (element 1 yields 10, then element 0 yields 11); the response lists element 0's result first, element 1's second *)
+Example C32_example_parallel :
   let exec := fun (s e : nat) => (s + e, s + e)%nat in
   let es := [1; 10]%nat in
   let '(_, tagged, _) := run_sched exec (fun _ => true) 0%nat false es 0%nat false [(1, false); (0, false)]%nat in
-  map fst tagged = [1; 0]%nat /\
-  respond (fun _ => true) ["first"%string; "second"%string] (map snd tagged) = [(Some "first"%string, 10%nat); (Some "second"%string, 11%nat)] /\
-  standalone exec 0%nat es 0%nat = Some 1%nat.
-Proof. vm_compute. repeat split. Qed.
-Print Assumptions C32_attribution_refuted_parallel.
+  tagged = [(1, 10); (0, 11)]%nat /\
+  respond (fun _ => true) ["first"%string; "second"%string] tagged = [(Some "first"%string, 11%nat); (Some "second"%string, 10%nat)].
+Proof. vm_compute. split; reflexivity. Qed.
 
 (* ---------- instantiation with the ledger model (Core.step): state = the seven tables + sequences ---------- *)
 Open Scope Z_scope.
